@@ -354,6 +354,11 @@ impl Ctl {
             // executing File::create now would truncate the file under an attached reader (SIGBUS on its
             // next access): record it and stop this run instead
             self.oracle.violations.push(("C04".into(), "wipe-under-attached-reader".into(), "ShmWriter::new is about to truncate the segment while a reader is attached".into()));
+            if self.oracle.start_usable {
+                let g = self.oracle.pre_new.as_ref().map(|f| f.gen).unwrap_or(0);
+                self.oracle.violations.push(("C04".into(), "usable-segment-wiped".into(), format!("ShmWriter::new is about to wipe a usable segment (generation {g})")));
+                self.oracle.violations.push(("C11".into(), "generation-back-to-zero".into(), format!("a restart is about to re-initialise a published segment: generation {g} would go back to 0")));
+            }
             self.poisoned = true;
             return Err("POISONED".into());
         }
